@@ -10,6 +10,7 @@ import itertools
 import os
 import subprocess
 import tempfile
+import threading
 import time
 from dataclasses import dataclass, field
 from fractions import Fraction
@@ -475,7 +476,8 @@ class Path:
                 if r2 == z3.sat:
                     md2 = _model_to_dict(s.model())
                 elif r2 != z3.unsat:
-                    rc, mraw = _z3cli_check(s.to_smt2(), self.ex.timeout_ms)
+                    smt2_ = s.to_smt2()
+                    rc, mraw = _z3cli_first(_z3cli_start(smt2_, self.ex.timeout_ms), _z3cli_start(_small_scope(smt2_, list(s.assertions())), self.ex.timeout_ms), self.ex.timeout_ms)
                     if rc == "unsat":
                         r2 = z3.unsat
                     elif rc == "sat":
@@ -509,6 +511,13 @@ class Path:
         s.set("timeout", min(self.ex.timeout_ms, 3000))
         r = s.check()
         ob.backend = "z3"
+        if r == z3.unknown:
+            smt2 = s.to_smt2()
+            budget = max(3000, min(self.ex.timeout_ms, 10000))
+            r1, _ = _z3cli_first(_z3cli_start(smt2, budget), _z3cli_start(_small_scope(smt2, list(s.assertions())), budget), budget)
+            if r1 in ("sat", "unsat"):
+                r = z3.sat if r1 == "sat" else z3.unsat
+                ob.backend = "z3-4.8.12(cli)"
         ob.status = "discharged" if r == z3.sat else ("failed" if r == z3.unsat else "unknown")
         if ob.status == "discharged":
             memo.add(name)
@@ -581,15 +590,65 @@ def solve_valid_inc(s, goal, timeout_ms):
     # the second, independent z3 build (Debian's 4.8.12 CLI: different heuristics decide many queries - notably
     # satisfiable non-linear ones - that the 5.1 API leaves open) runs CONCURRENTLY with the cone check
     smt2 = s.to_smt2()
+    if os.environ.get("PYVC_DUMP_SMT"):
+        with open(os.path.join(os.environ["PYVC_DUMP_SMT"], f"q{int(time.time()*1000)}.smt2"), "w") as f_:
+            f_.write(smt2)
     cli = _z3cli_start(smt2, max(3000, timeout_ms))
+    # SMALL-SCOPE REFUTATION, also concurrent: the same query with every free integer constant confined to [0, 2].
+    # The extra constraints only strengthen the hypotheses, so a model found there is a genuine counter-model of the
+    # obligation (never used to prove anything); it makes refutations cheap when lengths / indices are symbolic.
+    cli_small = _z3cli_start(_small_scope(smt2, asserts), max(3000, timeout_ms))
     s2 = z3.Solver()
     s2.set("timeout", timeout_ms)
     for a in cone:
         s2.add(a)
     s2.add(asserts[-1])
-    r = s2.check()
+    # the API check runs in a worker thread (z3 releases the GIL); whichever of the three answers first decides
+    box = {}
+
+    def _run():
+        try:
+            box["r"] = s2.check()
+        except z3.Z3Exception:
+            box["r"] = z3.unknown
+
+    th = threading.Thread(target=_run, daemon=True)
+    th.start()
+    early = None
+    live = {"full": cli, "small": cli_small}
+    while th.is_alive():
+        for k_ in list(live):
+            h_ = live[k_]
+            if h_ is None:
+                live.pop(k_)
+                continue
+            if h_[0].poll() is not None:
+                live.pop(k_)
+                r_, m_ = _z3cli_finish(h_, max(3000, timeout_ms))
+                if r_ == "sat" or (r_ == "unsat" and k_ == "full"):
+                    early = (r_, m_, k_)
+                    break
+        if early:
+            break
+        th.join(0.02)
+    if early:
+        try:
+            s2.ctx.interrupt()
+        except Exception:
+            pass
+        th.join(10)
+        for h_ in live.values():
+            _z3cli_kill(h_)
+        r_, m_, k_ = early
+        be = "z3-4.8.12(cli)" if k_ == "full" else "z3-4.8.12(cli, small scope)"
+        if r_ == "unsat":
+            return "valid", be, None
+        return "invalid", be, (m_[:2000], {"__raw__": m_[:4000]})
+    cli, cli_small = live.get("full"), live.get("small")
+    r = box.get("r", z3.unknown)
     if r == z3.unsat:
         _z3cli_kill(cli)
+        _z3cli_kill(cli_small)
         return "valid", "z3-cone", None
     if r == z3.sat:
         md = _model_to_dict(s2.model())
@@ -600,8 +659,9 @@ def solve_valid_inc(s, goal, timeout_ms):
             s3.add(a)
         if s3.check() != z3.unsat:
             _z3cli_kill(cli)
+            _z3cli_kill(cli_small)
             return "invalid", "z3-cone", (ms, md)
-    r1, m1 = _z3cli_finish(cli, max(3000, timeout_ms))
+    r1, m1 = _z3cli_first(cli, cli_small, max(3000, timeout_ms))
     if r1 == "unsat":
         return "valid", "z3-4.8.12(cli)", None
     if r1 == "sat":
@@ -797,6 +857,69 @@ def _z3cli_finish(h, timeout_ms: int):
             os.unlink(fn)
         except OSError:
             pass
+
+
+def _small_scope(smt2: str, asserts) -> str:
+    """the query plus 0 <= c <= 2 for every free Int constant (sound for `sat` answers only)"""
+    names = set()
+    seen = set()
+    stack = list(asserts)
+    while stack:
+        t = stack.pop()
+        i = t.get_id()
+        if i in seen:
+            continue
+        seen.add(i)
+        if z3.is_quantifier(t):
+            stack.append(t.body())
+            continue
+        if z3.is_app(t):
+            if t.num_args() == 0 and t.decl().kind() == z3.Z3_OP_UNINTERPRETED and z3.is_int(t):
+                names.add(t.sexpr())
+            stack.extend(t.children())
+    extra = "".join(f"(assert (and (<= 0 {n}) (<= {n} 2)))\n" for n in sorted(names))
+    k = smt2.rfind("(check-sat)")
+    return smt2[:k] + extra + smt2[k:] if k >= 0 else smt2 + extra
+
+
+def _z3cli_first(full, small, timeout_ms: int):
+    """wait for the full query and its small-scope strengthening together: `unsat` counts only from the full query,
+    `sat` from either (whichever answers first)"""
+    if small is None:
+        return _z3cli_finish(full, timeout_ms)
+    if full is None:
+        r, m = _z3cli_finish(small, timeout_ms)
+        return (r, m) if r == "sat" else ("unknown", "")
+    t0 = full[2]
+    deadline = t0 + timeout_ms / 1000 + 2
+    done_small = False
+    while time.time() < deadline:
+        if full[0].poll() is not None:
+            r, m = _z3cli_finish(full, timeout_ms)
+            if r in ("sat", "unsat") or done_small:
+                if not done_small:
+                    _z3cli_kill(small)
+                return r, m
+            full = None
+            break
+        if not done_small and small[0].poll() is not None:
+            done_small = True
+            r, m = _z3cli_finish(small, timeout_ms)
+            if r == "sat":
+                _z3cli_kill(full)
+                return "sat", m
+        time.sleep(0.02)
+    if full is not None:
+        r, m = _z3cli_finish(full, timeout_ms)
+        if r in ("sat", "unsat"):
+            if not done_small:
+                _z3cli_kill(small)
+            return r, m
+    if not done_small:
+        r, m = _z3cli_finish(small, timeout_ms)
+        if r == "sat":
+            return "sat", m
+    return "unknown", ""
 
 
 def _z3cli_check(smt2: str, timeout_ms: int):
